@@ -1,5 +1,6 @@
 //! Workloads under real LD_PRELOAD interposition of the hook dylib (C02 C-ABI join mapping, C14/C15 hooked
-//! sleeps, C18 non-blocking sockets, C23 maybe_grow_stack through the C ABI). One case per process.
+//! sleeps, C18 non-blocking sockets, C23 maybe_grow_stack through the C ABI, C16 byte accounting of interposed send/recv families
+//! inside a task, C19 socket time limits across close + descriptor reuse inside a task). One case per process.
 //! All verdict output goes to --out (the dylib logs to stdout).
 #![allow(clippy::too_many_lines)]
 use mon::{case_range, jobj, Args, Out, Rng, Verdict, J};
@@ -133,6 +134,281 @@ extern "C" fn recurse(depth: usize) -> usize {
     (r as usize) + 1 + usize::from(pad[0] == 255 && depth == usize::MAX)
 }
 
+
+// ---- C16 / C19 under interposition: the task body talks to a plain helper thread through statics ----
+static IO_KIND: AtomicUsize = AtomicUsize::new(0);
+static IO_LEN: AtomicUsize = AtomicUsize::new(0);
+static IO_BACK: AtomicUsize = AtomicUsize::new(0);
+static IO_SEED: AtomicU64 = AtomicU64::new(0);
+static IO_CALLS: AtomicUsize = AtomicUsize::new(0);
+static IO_PARTIAL: AtomicUsize = AtomicUsize::new(0);
+static REPORT: std::sync::Mutex<Vec<(String, String)>> = std::sync::Mutex::new(Vec::new());
+
+fn pat(seed: u64, i: usize) -> u8 {
+    let mut x = seed ^ (i as u64).wrapping_mul(0x9E37_79B9_7F4A_7C15);
+    x ^= x >> 29;
+    x = x.wrapping_mul(0xBF58_476D_1CE4_E5B9);
+    (x >> 32) as u8
+}
+
+fn report(sig: &str, detail: String) {
+    REPORT.lock().unwrap().push((sig.to_string(), detail));
+}
+
+fn errno() -> i32 {
+    std::io::Error::last_os_error().raw_os_error().unwrap_or(0)
+}
+
+/// one write-family call through the interposed libc symbol
+unsafe fn wr(kind: usize, fd: i32, b: &[u8]) -> isize {
+    match kind % 5 {
+        0 => libc::send(fd, b.as_ptr().cast(), b.len(), 0),
+        1 => libc::write(fd, b.as_ptr().cast(), b.len()),
+        2 => {
+            let (a, rest) = b.split_at(b.len() / 3);
+            let (c, d) = rest.split_at(rest.len() / 2);
+            let iov = [libc::iovec { iov_base: a.as_ptr() as *mut _, iov_len: a.len() }, libc::iovec { iov_base: c.as_ptr() as *mut _, iov_len: c.len() }, libc::iovec { iov_base: d.as_ptr() as *mut _, iov_len: d.len() }];
+            libc::writev(fd, iov.as_ptr(), 3)
+        }
+        3 => {
+            let (a, c) = b.split_at(b.len() / 2);
+            let mut iov = [libc::iovec { iov_base: a.as_ptr() as *mut _, iov_len: a.len() }, libc::iovec { iov_base: c.as_ptr() as *mut _, iov_len: c.len() }];
+            let mut m: libc::msghdr = std::mem::zeroed();
+            m.msg_iov = iov.as_mut_ptr();
+            m.msg_iovlen = 2;
+            libc::sendmsg(fd, &m, 0)
+        }
+        _ => libc::sendto(fd, b.as_ptr().cast(), b.len(), 0, std::ptr::null(), 0),
+    }
+}
+
+/// one read-family call through the interposed libc symbol; scattered buffers are gathered back into `b`
+unsafe fn rd(kind: usize, fd: i32, b: &mut [u8]) -> isize {
+    match kind % 5 {
+        0 => libc::recv(fd, b.as_mut_ptr().cast(), b.len(), 0),
+        1 => libc::read(fd, b.as_mut_ptr().cast(), b.len()),
+        2 => {
+            let n = b.len();
+            let (a, c) = b.split_at_mut(n / 3);
+            let iov = [libc::iovec { iov_base: a.as_mut_ptr().cast(), iov_len: a.len() }, libc::iovec { iov_base: c.as_mut_ptr().cast(), iov_len: c.len() }];
+            libc::readv(fd, iov.as_ptr(), 2)
+        }
+        3 => {
+            let n = b.len();
+            let (a, c) = b.split_at_mut(n / 2);
+            let mut iov = [libc::iovec { iov_base: a.as_mut_ptr().cast(), iov_len: a.len() }, libc::iovec { iov_base: c.as_mut_ptr().cast(), iov_len: c.len() }];
+            let mut m: libc::msghdr = std::mem::zeroed();
+            m.msg_iov = iov.as_mut_ptr();
+            m.msg_iovlen = 2;
+            libc::recvmsg(fd, &mut m, 0)
+        }
+        _ => libc::recvfrom(fd, b.as_mut_ptr().cast(), b.len(), 0, std::ptr::null_mut(), std::ptr::null_mut()),
+    }
+}
+
+const WR_NAMES: [&str; 5] = ["send", "write", "writev", "sendmsg", "sendto"];
+const RD_NAMES: [&str; 5] = ["recv", "read", "readv", "recvmsg", "recvfrom"];
+
+/// C16 task body: push IO_LEN patterned bytes through a small socket buffer, then read IO_BACK bytes that arrive in pieces
+extern "C" fn io_task(_: usize) -> usize {
+    let (kind, len, back, seed) = (IO_KIND.load(Ordering::SeqCst), IO_LEN.load(Ordering::SeqCst), IO_BACK.load(Ordering::SeqCst), IO_SEED.load(Ordering::SeqCst));
+    let mut sv = [0; 2];
+    assert_eq!(0, unsafe { libc::socketpair(libc::AF_UNIX, libc::SOCK_STREAM, 0, sv.as_mut_ptr()) });
+    let small: libc::c_int = 4096;
+    unsafe { libc::setsockopt(sv[0], libc::SOL_SOCKET, libc::SO_SNDBUF, (&raw const small).cast(), 4) };
+    let peer = sv[1];
+    let helper = std::thread::spawn(move || {
+        // slow native reader: the transcript the kernel really delivered
+        let mut got = 0usize;
+        let mut chunk = vec![0u8; 3001];
+        let mut bad: Option<String> = None;
+        while got < len {
+            let r = unsafe { libc::recv(peer, chunk.as_mut_ptr().cast(), chunk.len().min(len - got), 0) };
+            if r <= 0 {
+                bad = Some(format!("peer saw end/error ({r}, errno {}) after {got} of {len} bytes", errno()));
+                break;
+            }
+            for (j, byte) in chunk[..r as usize].iter().enumerate() {
+                if *byte != pat(seed, got + j) && bad.is_none() {
+                    bad = Some(format!("stream byte {} differs from the caller's data (a byte was skipped or sent twice)", got + j));
+                }
+            }
+            got += r as usize;
+            if got % 5 == 0 {
+                std::thread::sleep(Duration::from_micros(300));
+            }
+        }
+        // then answer in pieces of odd sizes with pauses
+        let mut sent = 0usize;
+        let mut step = 1usize;
+        while sent < back {
+            let n = (step * 37 % 1500 + 1).min(back - sent);
+            let piece: Vec<u8> = (0..n).map(|j| pat(seed ^ 0xABCD, sent + j)).collect();
+            let r = unsafe { libc::send(peer, piece.as_ptr().cast(), n, 0) };
+            if r <= 0 {
+                break;
+            }
+            sent += r as usize;
+            step += 1;
+            if step % 3 == 0 {
+                std::thread::sleep(Duration::from_millis(2));
+            }
+        }
+        bad
+    });
+    let data: Vec<u8> = (0..len).map(|i| pat(seed, i)).collect();
+    let mut off = 0usize;
+    while off < len {
+        let r = unsafe { wr(kind, sv[0], &data[off..]) };
+        IO_CALLS.fetch_add(1, Ordering::SeqCst);
+        if r < 0 {
+            report(&format!("C16/interposed/{}/failed-on-a-healthy-socket", WR_NAMES[kind % 5]), format!("returned {r} errno {} at offset {off} of {len}", errno()));
+            break;
+        }
+        if r as usize > len - off {
+            report(&format!("C16/interposed/{}/returns-more-than-requested", WR_NAMES[kind % 5]), format!("returned {r} for {} bytes", len - off));
+            break;
+        }
+        if (r as usize) < len - off {
+            IO_PARTIAL.fetch_add(1, Ordering::SeqCst);
+        }
+        off += r as usize;
+    }
+    // read side: every return value must be the number of next-in-stream bytes now in the buffer
+    let mut got = 0usize;
+    let mut buf = vec![0xEEu8; 2048 + 2];
+    while got < back {
+        let want = (2048usize).min(back - got);
+        buf.iter_mut().for_each(|b| *b = 0xEE);
+        let r = unsafe { rd(kind / 5, sv[0], &mut buf[1..=want]) };
+        IO_CALLS.fetch_add(1, Ordering::SeqCst);
+        if r <= 0 {
+            report(&format!("C16/interposed/{}/failed-or-ended-on-a-healthy-socket", RD_NAMES[kind / 5 % 5]), format!("returned {r} errno {} after {got} of {back}", errno()));
+            break;
+        }
+        let r = r as usize;
+        if r > want || buf[0] != 0xEE || buf[want + 1] != 0xEE {
+            report(&format!("C16/interposed/{}/wrote-outside-the-buffer", RD_NAMES[kind / 5 % 5]), format!("returned {r} for a {want}-byte buffer"));
+            break;
+        }
+        if r < want {
+            IO_PARTIAL.fetch_add(1, Ordering::SeqCst);
+        }
+        if let Some(j) = (0..r).find(|j| buf[1 + j] != pat(seed ^ 0xABCD, got + j)) {
+            report(&format!("C16/interposed/{}/buffer-is-not-the-next-bytes-of-the-stream", RD_NAMES[kind / 5 % 5]), format!("byte {j} of a {r}-byte return at stream offset {got}"));
+            break;
+        }
+        if let Some(j) = (r..want).find(|j| buf[1 + j] != 0xEE) {
+            report(&format!("C16/interposed/{}/returns-less-than-moved", RD_NAMES[kind / 5 % 5]), format!("returned {r} but byte {j} of the buffer was written"));
+            break;
+        }
+        got += r;
+    }
+    unsafe { libc::shutdown(sv[0], libc::SHUT_RDWR) };
+    if let Ok(Some(b)) = helper.join() {
+        if REPORT.lock().unwrap().is_empty() {
+            report(&format!("C16/interposed/{}/transcript-differs-from-callers-data", WR_NAMES[kind % 5]), b);
+        }
+    }
+    unsafe {
+        libc::close(sv[0]);
+        libc::close(sv[1]);
+    }
+    off + got
+}
+
+static LATE_WRITE_FD: std::sync::atomic::AtomicI32 = std::sync::atomic::AtomicI32::new(-1);
+static REUSED: AtomicUsize = AtomicUsize::new(0);
+static ROUNDS: AtomicUsize = AtomicUsize::new(0);
+
+unsafe fn tcp_pair(listener: i32, addr: &libc::sockaddr_in) -> (i32, i32) {
+    let c = libc::socket(libc::AF_INET, libc::SOCK_STREAM, 0);
+    assert!(c >= 0);
+    assert_eq!(0, libc::connect(c, std::ptr::from_ref(addr).cast(), 16), "connect: {}", errno());
+    let s = libc::accept(listener, std::ptr::null_mut(), std::ptr::null_mut());
+    assert!(s >= 0, "accept: {}", errno());
+    (c, s)
+}
+
+unsafe fn set_rcvtimeo(fd: i32, ms: u64) {
+    let tv = libc::timeval { tv_sec: (ms / 1000) as libc::time_t, tv_usec: ((ms % 1000) * 1000) as libc::suseconds_t };
+    assert_eq!(0, libc::setsockopt(fd, libc::SOL_SOCKET, libc::SO_RCVTIMEO, (&raw const tv).cast(), 16));
+}
+
+unsafe fn native_rcvtimeo_ms(fd: i32) -> u64 {
+    let mut tv: libc::timeval = std::mem::zeroed();
+    let mut l: libc::socklen_t = 16;
+    libc::getsockopt(fd, libc::SOL_SOCKET, libc::SO_RCVTIMEO, (&raw mut tv).cast(), &raw mut l);
+    tv.tv_sec as u64 * 1000 + tv.tv_usec as u64 / 1000
+}
+
+/// C19 task body: option set -> timed-out receive -> (clear | close + reuse of the number) -> receive that must wait for late data
+extern "C" fn limit_task(variant: usize) -> usize {
+    unsafe {
+        let listener = libc::socket(libc::AF_INET, libc::SOCK_STREAM, 0);
+        let mut addr: libc::sockaddr_in = std::mem::zeroed();
+        addr.sin_family = libc::AF_INET as _;
+        addr.sin_addr.s_addr = u32::from_ne_bytes([127, 0, 0, 1]);
+        assert_eq!(0, libc::bind(listener, (&raw const addr).cast(), 16));
+        assert_eq!(0, libc::listen(listener, 8));
+        let mut l: libc::socklen_t = 16;
+        libc::getsockname(listener, (&raw mut addr).cast(), &raw mut l);
+        let mut b = [0u8; 8];
+        for round in 0..3usize {
+            let t_ms = [20u64, 40, 60][(variant + round) % 3];
+            let (c, s) = tcp_pair(listener, &addr);
+            set_rcvtimeo(s, t_ms);
+            let t0 = mono_ns();
+            let r = libc::recv(s, b.as_mut_ptr().cast(), 8, 0);
+            let (e, el) = (errno(), (mono_ns() - t0) / 1_000_000);
+            if r != -1 || !(e == libc::EAGAIN || e == libc::EWOULDBLOCK || e == libc::ETIMEDOUT) {
+                report("C19/interposed/timed-receive-on-empty-socket-did-not-time-out", format!("limit {t_ms} ms: returned {r} errno {e} after {el} ms"));
+            } else if el + 1 < t_ms {
+                report("C19/interposed/limit-shorter-than-option", format!("limit {t_ms} ms: gave up after {el} ms"));
+            } else if el > t_ms + 400 {
+                report("C19/interposed/limit-longer-than-option/returns-late", format!("limit {t_ms} ms: gave up after {el} ms"));
+            }
+            // second half: the descriptor that must now wait without a limit
+            let (c2, s2) = if (variant + round) % 2 == 0 {
+                // cleared on the same socket
+                set_rcvtimeo(s, 0);
+                (c, s)
+            } else {
+                // closed; a new connection takes the lowest free numbers
+                libc::close(s);
+                libc::close(c);
+                let (c2, s2) = tcp_pair(listener, &addr);
+                if s2 == s || c2 == s {
+                    REUSED.fetch_add(1, Ordering::SeqCst);
+                }
+                // receive on whichever end carries the old accepted number
+                if c2 == s { (s2, c2) } else { (c2, s2) }
+            };
+            let native = native_rcvtimeo_ms(s2);
+            LATE_WRITE_FD.store(c2, Ordering::SeqCst);
+            let t0 = mono_ns();
+            let r = libc::recv(s2, b.as_mut_ptr().cast(), 8, 0);
+            let (e, el) = (errno(), (mono_ns() - t0) / 1_000_000);
+            while LATE_WRITE_FD.load(Ordering::SeqCst) != -1 {
+                libc::usleep(1000);
+            }
+            let how = if (variant + round) % 2 == 0 { "option-cleared-to-zero" } else { "descriptor-number-reused-after-close" };
+            if native != 0 {
+                report("harness/kernel-option-not-zero", format!("{native}"));
+            } else if r == -1 && el < 140 {
+                report(&format!("C19/interposed/stale-limit-applied/{how}"), format!("socket has no receive limit (getsockopt: 0) but the interposed recv gave up after {el} ms with errno {e}; earlier limit on that number: {t_ms} ms"));
+            } else if r != 4 {
+                report(&format!("C19/interposed/unlimited-receive-wrong-result/{how}"), format!("returned {r} errno {e} after {el} ms, expected the 4 bytes written after 150 ms"));
+            }
+            ROUNDS.fetch_add(1, Ordering::SeqCst);
+            libc::close(s2);
+            libc::close(c2);
+        }
+        libc::close(listener);
+    }
+    7
+}
+
 fn main() {
     let args = Args::parse();
     let out = Out::open(&args);
@@ -140,7 +416,7 @@ fn main() {
     let (case, _) = case_range(&args, 1);
     let mut rng = Rng::for_case(seed ^ 0x4004, case);
     let a = api();
-    let scenario = case % 5;
+    let scenario = case % 7;
     let hook_everywhere = scenario == 3 || scenario == 1; // Config.hook: apply the hook on plain threads too
     let cfg = Config { event_loop_size: 1, stack_size: 128 * 1024, min_size: 0, max_size: 64, keep_alive_time: 0, min_memory_count: 0, memory_keep_alive_time: 0, hook: hook_everywhere };
     let mut viol: Option<(String, String)> = None;
@@ -267,6 +543,57 @@ fn main() {
                 viol = Some(("C18/interposed/nonblocking-would-block-not-reported-as-EAGAIN".into(), format!("returned {r} errno {e}")));
             }
         }
+        5 => {
+            // C16 under interposition: byte accounting of the send/recv families inside a task, real kernel, small socket buffer
+            let kind = rng.usize(0, 24);
+            let len = *rng.pick(&[1usize, 4096, 70_001, 300_000]);
+            let back = *rng.pick(&[1usize, 5000, 40_000]);
+            out.begin(case, jobj! {"scenario" => "task pushes patterned bytes through the interposed write family into a 4 KiB socket buffer drained slowly by a plain thread, then reads an answer that arrives in odd pieces through the interposed read family", "write_call" => WR_NAMES[kind % 5], "read_call" => RD_NAMES[kind / 5 % 5], "bytes_out" => len, "bytes_back" => back});
+            assert_eq!(0, unsafe { (a.init)(cfg) });
+            IO_KIND.store(kind, Ordering::SeqCst);
+            IO_LEN.store(len, Ordering::SeqCst);
+            IO_BACK.store(back, Ordering::SeqCst);
+            IO_SEED.store(rng.next_u64(), Ordering::SeqCst);
+            let h = unsafe { (a.task_crate)(io_task, 0, 0) };
+            let r = unsafe { (a.task_timeout_join)(&h, 40_000_000_000) };
+            obs = jobj! {"calls" => IO_CALLS.load(Ordering::SeqCst), "partial_returns" => IO_PARTIAL.load(Ordering::SeqCst), "bytes_accounted" => r, "expected" => len + back};
+            fp = format!("5|{kind}|{len}|{back}");
+            if let Some(v) = REPORT.lock().unwrap().first().cloned() {
+                viol = Some(v);
+            } else if r != (len + back) as i64 {
+                viol = Some(("C16/interposed/task-did-not-finish-its-transfers".into(), format!("task accounted {r} bytes, expected {}", len + back)));
+            }
+        }
+        6 => {
+            // C19 under interposition: limits follow the live socket across clear and close + reuse
+            let variant = rng.usize(0, 5);
+            out.begin(case, jobj! {"scenario" => "task on TCP loopback: SO_RCVTIMEO set through the interposed setsockopt, timed-out recv, then either the option cleared to 0 or libc close + a new connection reusing the number; the next recv must wait for data written 150 ms later", "variant" => variant});
+            assert_eq!(0, unsafe { (a.init)(cfg) });
+            let writer = std::thread::spawn(|| loop {
+                let fd = LATE_WRITE_FD.load(Ordering::SeqCst);
+                if fd == -2 {
+                    break;
+                }
+                if fd >= 0 {
+                    std::thread::sleep(Duration::from_millis(150));
+                    let m = [9u8; 4];
+                    unsafe { libc::send(fd, m.as_ptr().cast(), 4, libc::MSG_NOSIGNAL) };
+                    LATE_WRITE_FD.store(-1, Ordering::SeqCst);
+                }
+                std::thread::sleep(Duration::from_micros(200));
+            });
+            let h = unsafe { (a.task_crate)(limit_task, variant, 0) };
+            let r = unsafe { (a.task_timeout_join)(&h, 30_000_000_000) };
+            LATE_WRITE_FD.store(-2, Ordering::SeqCst);
+            let _ = writer.join();
+            obs = jobj! {"rounds" => ROUNDS.load(Ordering::SeqCst), "numbers_reused" => REUSED.load(Ordering::SeqCst), "task_result" => r};
+            fp = format!("6|{variant}");
+            if let Some(v) = REPORT.lock().unwrap().first().cloned() {
+                viol = Some(v);
+            } else if r != 7 {
+                viol = Some(("C19/interposed/task-did-not-finish".into(), format!("join returned {r} after {} rounds", ROUNDS.load(Ordering::SeqCst))));
+            }
+        }
         _ => {
             // C23 through the C ABI: maybe_grow_stack at every level of a deep recursion inside a task and on a thread
             let depth = rng.usize(200, 1500);
@@ -282,8 +609,13 @@ fn main() {
             }
         }
     }
-    if viol.as_ref().is_some_and(|v| v.0.contains("late") || v.0.contains("one-after-another") || v.0.contains("waited-instead") || v.0.contains("short-timeout-join")) && overloaded() {
+    if viol.as_ref().is_some_and(|v| v.0.contains("late") || v.0.contains("one-after-another") || v.0.contains("waited-instead") || v.0.contains("short-timeout-join") || v.0.contains("did-not-finish")) && overloaded() {
         out.end(case, Verdict::Inconclusive, "machine-overloaded-during-timing-case", false, &fp, obs, &viol.map(|v| v.1).unwrap_or_default());
+        unsafe { libc::_exit(0) };
+    }
+    if viol.as_ref().is_some_and(|v| v.0.starts_with("harness/")) {
+        let v = viol.unwrap();
+        out.end(case, Verdict::Inconclusive, &v.0, false, &fp, obs, &v.1);
         unsafe { libc::_exit(0) };
     }
     match viol {
